@@ -454,3 +454,15 @@ theorem wmedian_of_minimiser {ι : Type} [DecidableEq ι] (s : Finset ι) (w y :
     simp only [e1, e2]
     exact hmin (-m'))
   simpa only [neg_lt_neg_iff] using h
+
+/-- count_gt_one_iff: a value occurs more than once among the rows iff two DIFFERENT rows carry it
+    (contracts/C14.py: Series.value_counts() > 1). -/
+theorem count_gt_one_iff (s : Finset U) (A : U → Prop) [DecidablePred A] :
+    1 < (s.filter A).card ↔ ∃ a ∈ s, ∃ b ∈ s, A a ∧ A b ∧ a ≠ b := by
+  rw [Finset.one_lt_card_iff]
+  constructor
+  · rintro ⟨a, b, ha, hb, hab⟩
+    rw [Finset.mem_filter] at ha hb
+    exact ⟨a, ha.1, b, hb.1, ha.2, hb.2, hab⟩
+  · rintro ⟨a, ha, b, hb, hA, hB, hab⟩
+    exact ⟨a, b, Finset.mem_filter.mpr ⟨ha, hA⟩, Finset.mem_filter.mpr ⟨hb, hB⟩, hab⟩
